@@ -135,7 +135,10 @@ class Program(object):
 
         address = 0
         for index, statement in enumerate(self.statements):
-            address = statement.set_address(address)
+            try:
+                address = statement.set_address(address)
+            except ValueTypeError as error:
+                raise TranslationError(str(error), statement)
             address += statement.code_pkg.size
 
         for index, statement in enumerate(self.statements):
